@@ -302,14 +302,9 @@ def check(rep):
     sample = idx  # every extractor in both tiers: (1) is a statement per reporter string across extractors
     rep.bounds.append(f"(1)(2): {len(sample)} of {len(exts)} citation extractors (all); volumes [1-9]\\d* and pages \\d+ of any length; neighbours any non-alphanumeric character or the text ends; (5): contexts [,][ ][at ]D{{1,2}}T plus <= 1 arbitrary character")
     rep.outside += ["captures on longer trailing contexts, party names, court lookup, parentheticals, full-span ends", "'exactly one citation per written citation' under overlapping patterns", "reporter strings whose database entry has its own 'regexes' (custom templates with restricted volumes/pages) are not in (1)/(2)"]
-    with mp.get_context("fork").Pool(min(16, os.cpu_count() or 4)) as pool:
-        ar = pool.map_async(job, sample, chunksize=8)
-        try:
-            res = ar.get(timeout=3000)
-        except mp.TimeoutError:
-            pool.terminate()
-            rep.inconc("regex inclusion queries exceeded 3000 s")
-            res = []
+    res, err = common.pmap(job, sample, timeout=3000, chunk=8)
+    if err:
+        rep.inconc("regex inclusion queries: " + err)
     cnt = {"recognise": {}, "exact": {}}
     for r in res:
         for k in ("recognise", "exact"):
